@@ -28,7 +28,7 @@ pub(crate) static mut EV_C: [u32; ECAP] = [0; ECAP];
 pub(crate) static mut EV_T: [Buf; ECAP] = [Buf::new(); ECAP];
 pub(crate) static mut EV_D: [Val; ECAP] = [Val::VOID; ECAP];
 
-pub(crate) const WCAP: usize = 4;
+pub(crate) const WCAP: usize = 8;
 pub(crate) static mut WASM_N: usize = 0;
 pub(crate) static mut WASM_C: [u32; WCAP] = [0; WCAP];
 pub(crate) static mut WASM_H: [[u8; 32]; WCAP] = [[0; 32]; WCAP];
